@@ -945,3 +945,68 @@ Proof.
     rewrite H1, H2, Hd. reflexivity.
   - unfold row_free_of_reserved. rewrite Hx, Hz. reflexivity.
 Qed.
+
+(* ------------------------------------------------------------------ lines end at LF only *)
+
+(* the reader sees exactly the lines that were written, whatever other code points they hold *)
+Lemma open_file_lines_join (l : str) (ls : list str) :
+  Forall (fun x => memb ch_nl x = false) (l :: ls) ->
+  open_file_lines (join [ch_nl] (l :: ls)) = l :: ls.
+Proof.
+  unfold open_file_lines. revert l. induction ls as [|q r IH]; intros l H.
+  - simpl. inversion H; subst. apply split_on_none. assumption.
+  - inversion H as [|? ? Hl Hr]; subst.
+    change (join [ch_nl] (l :: q :: r)) with (l ++ ch_nl :: join [ch_nl] (q :: r)).
+    rewrite (split_on_app _ _ _ Hl). f_equal. apply IH. exact Hr.
+Qed.
+
+Lemma nl_free s : none_of brackets s = true -> memb ch_nl s = false.
+Proof. intro H. eapply none_of_memb; eauto. Qed.
+
+Lemma extras_nl_free A d :
+  none_of brackets A = true ->
+  match d with Some D => none_of brackets D = true | None => True end ->
+  memb ch_nl (extras_of A d) = false.
+Proof.
+  intros HA HD. pose proof (nl_free _ HA) as a1. unfold extras_of.
+  assert (HDs : forall c D', d = Some (c :: D') -> N.eqb ch_nl c = false /\ memb ch_nl D' = false).
+  { intros c D' E. subst d. pose proof (nl_free _ HD) as d1. rewrite memb_cons in d1.
+    apply orb_false_iff in d1. exact d1. }
+  destruct A as [|a A']; cbn [nonempty app].
+  - destruct d as [[|c D']|]; try reflexivity. destruct (HDs c D' eq_refl) as [dc dD]. cbn [app]. memb_solve.
+  - rewrite memb_cons in a1. apply orb_false_iff in a1 as [ac aA].
+    destruct d as [[|c D']|]; try (cbn [app]; memb_solve).
+    destruct (HDs c D' eq_refl) as [dc dD]. cbn [app]. memb_solve.
+Qed.
+
+(* a written tag line holds no LF: it is one line for the reader *)
+Lemma written_line_lf_free dis lvl n a d line :
+  name_ok n = true -> desc_text_ok d = true ->
+  wiki_text_ok (format_tag_attributes dis a) = true ->
+  write_tag_line dis n (S lvl) a d = Some line ->
+  memb ch_nl line = false.
+Proof.
+  intros Hn Hd Hw Hl.
+  rewrite (write_tag_line_star dis lvl n a d Hn) in Hl.
+  assert (El : flushed (stars (S lvl) ++ ch_space :: n) (format_props_and_desc dis a d) = line) by congruence.
+  subst line. destruct (name_ok_parts n Hn) as (_ & _ & Hb & _).
+  pose proof (nl_free _ Hb) as n1.
+  assert (s1 : memb ch_nl (stars (S lvl)) = false) by (apply memb_stars; reflexivity).
+  assert (e1 : memb ch_nl (format_props_and_desc dis a d) = false).
+  { rewrite format_props_and_desc_eq. apply extras_nl_free.
+    - unfold wiki_text_ok in Hw. apply andb_true_iff in Hw. tauto.
+    - destruct d as [D|]; [|exact I]. cbn [desc_text_ok] in Hd. unfold wiki_text_ok in Hd.
+      apply andb_true_iff in Hd. tauto. }
+  unfold flushed. destruct (nonempty (format_props_and_desc dis a d)).
+  - assert (o1 : memb ch_nl s_nowiki_open = false) by reflexivity.
+    assert (c1 : memb ch_nl s_nowiki_close = false) by reflexivity.
+    memb_solve.
+  - memb_solve.
+Qed.
+
+(* C05-F5 repaired: names delivered by the XML reader have no outer white space *)
+Lemma xml_name_normal text : no_outer_ws (xml_read_name true text) = true.
+Proof. apply strip_normal. Qed.
+
+Lemma xml_name_not_normal_before : exists text, no_outer_ws (xml_read_name false text) = false.
+Proof. exists [90%N; 160%N]. reflexivity. Qed.
